@@ -194,7 +194,7 @@ class OutputBuffer(BasicIOBase):
             Alternatively, the source location to use instead of the default.
         """
         src_loc = get_src_loc(src_loc)
-        super().__init__(from_method_layout(layout), False, edge, polarity, synchronize)
+        super().__init__(from_method_layout(layout), True, edge, polarity, synchronize)
         self.put = Method(i=layout, src_loc=src_loc)
 
     def elaborate(self, platform):
